@@ -74,9 +74,9 @@ structure Stack where
   rp : Option (Nat × Bool) := none     -- (maxRetries, returnLastFailure)
   ctxCreating : Bool := false          -- a Timeout or Hedge policy gives every attempt a child context
 
-/-- `rp2b`: the same retry policy with an exponential backoff configured as well (does not change the expectation: a
+/-- `rp2b` / `rp2d`: the same retry policy with an exponential backoff / a random delay configured as well (does not change the expectation: a
 Retry-After takes precedence, `retry_after_respected` holds for every delay configuration) -/
-def noB (s : String) : String := if s.endsWith "b" then (s.dropEnd 1).toString else s
+def noB (s : String) : String := if s.endsWith "b" || s.endsWith "d" then (s.dropEnd 1).toString else s
 
 def parseStack (s : String) : Stack :=
   (s.splitOn ",").foldl (fun st p =>
